@@ -280,3 +280,55 @@ _old_register2 = register
 def register(op, g):  # noqa: F811
     _old_register2(op, g)
     _register3(op, g)
+
+
+def _register4(op, g):
+    unhex, tohex = g["unhex"], g["tohex"]
+
+    @op
+    def classify_pyc(a):
+        """importlib's own reading of a pyc header (3.7+): flags, and the fields it would compare"""
+        import importlib._bootstrap_external as be
+        import struct
+        data = unhex(a["hex"])
+        flags = be._classify_pyc(data, "probe", {})
+        out = {"flags": flags, "hash_based": bool(flags & 1)}
+        if flags & 1:
+            out["hash"] = struct.unpack("<Q", data[8:16])[0]
+        else:
+            out["mtime"] = struct.unpack("<I", data[8:12])[0]
+            out["size"] = struct.unpack("<I", data[12:16])[0]
+        return out
+
+    @op
+    def py_compile_modes(a):
+        """py_compile of a source file in each invalidation mode: the pyc images"""
+        import py_compile, tempfile, os
+        d = tempfile.mkdtemp()
+        src = os.path.join(d, "m.py")
+        open(src, "w").write(a["source"])
+        os.utime(src, (a.get("mtime", 1700000000), a.get("mtime", 1700000000)))
+        out = {}
+        modes = [None]
+        if PY >= (3, 7):
+            modes = [py_compile.PycInvalidationMode.TIMESTAMP, py_compile.PycInvalidationMode.CHECKED_HASH,
+                     py_compile.PycInvalidationMode.UNCHECKED_HASH]
+        for m in modes:
+            cf = os.path.join(d, "m.pyc")
+            if m is None:
+                py_compile.compile(src, cfile=cf, doraise=True)
+                out["TIMESTAMP"] = tohex(open(cf, "rb").read())
+            else:
+                py_compile.compile(src, cfile=cf, doraise=True, invalidation_mode=m)
+                out[m.name] = tohex(open(cf, "rb").read())
+        import shutil
+        shutil.rmtree(d)
+        return out
+
+
+_old_register3 = register
+
+
+def register(op, g):  # noqa: F811
+    _old_register3(op, g)
+    _register4(op, g)
